@@ -55,6 +55,33 @@ def decode(d):
         if a[0] == b[0] == "C" and d.chance(1, 6):
             # a decoy: the first control mirrors the previous curve's FIRST control - this is not a smooth continuation
             b[2] = [b[1][0] + (a[4][0] - a[2][0]), b[1][1] + (a[4][1] - a[2][1])]
+    if d.chance(1, 6):
+        # a decoy across an interruption: a curve ends at P, something that is not a curve of that degree brings the pen
+        # back to exactly P (a line out and back, a zero-length close at P, a move to P, a curve of the other degree),
+        # and the next curve mirrors the earlier curve's last control point about P.  That is not a smooth continuation:
+        # S/T after anything but a curve of the same degree takes the current point as its control.
+        p0, P = gen.point(d, gen.small_coord), gen.point(d, gen.small_coord)
+        out = gen.point(d, gen.small_coord)
+        c = gen.point(d, gen.small_coord)
+        e = gen.point(d, gen.small_coord)
+        mirror = [2 * P[0] - c[0], 2 * P[1] - c[1]]
+        kind = d.choice(["Q", "C"])
+        first = ["Q", p0, c, P] if kind == "Q" else ["C", p0, gen.point(d, gen.small_coord), c, P]
+        second = ["Q", list(P), mirror, e] if kind == "Q" else ["C", list(P), mirror, gen.point(d, gen.small_coord), e]
+        gap = d.choice(["out-and-back", "move", "other-degree", "closed-start"])
+        if gap == "out-and-back":
+            middle = [["L", list(P), out], ["L", list(out), list(P)]]
+        elif gap == "move":
+            middle = [["M", list(P)]]
+        elif gap == "other-degree":
+            middle = [["C", list(P), out, out, list(P)]] if kind == "Q" else [["Q", list(P), out, list(P)]]
+        else:
+            # the subpath starts at P, so that its close returns there: M P, first' (P -> ... -> P), Z
+            first = ["Q", list(P), c, list(P)] if kind == "Q" else ["C", list(P), gen.point(d, gen.small_coord), c, list(P)]
+            p0 = list(P)
+            middle = [["Z"]]
+        segs = [["M", list(p0)], first] + middle + [second]
+        case["decoy"] = gap
     if d.chance(1, 5):
         # near-coincident points: offsets of the order 1e-10 .. 1e-20 are written in exponent form
         i = d.below(len(segs))
@@ -101,6 +128,8 @@ def check(case):
     o = core.Obs()
     rel, smooth = case["relative"], case["smooth"]
     o.label("rel:%s" % rel, "smooth:%s" % smooth, "route:%s" % case["route"])
+    if case.get("decoy"):
+        o.label("decoy:across-%s" % case["decoy"])
     if case["route"] == "prog":
         p = lib.mk_path(case["segs"])
         first = case["segs"][0][0]
